@@ -254,6 +254,63 @@ Theorem C05_tree_dims_after_compress : forall cc temp spectrum qr_dim, (forall c
 Proof. exact gen_tree_dims_after_compress. Qed.
 Print Assumptions C05_tree_dims_after_compress.
 
+(* ------------------------------------------------------------------ D. copies and the max_dims cache *)
+(* config_copy_dict, mp_metacopy_config, ttns_metacopy_config are GENERATED from CompressConfig.copy,
+   MatrixProduct.metacopy, TTNS.metacopy (Mps/Mpo.metacopy checked to go through super() and not to touch the
+   configuration).  Heap model: Model/Trunc.v part 4 (a reference = an attribute namespace, python __dict__). *)
+
+(* the configuration of x.copy() / x.metacopy() (hence of add / apply results) lives in a FRESH attribute
+   namespace holding a snapshot of the source's; no aliasing with the source, nothing of the old heap moves *)
+Theorem C05_copy_config_is_fresh :
+  (forall h r, (r < length h)%nat ->
+     let '(h', r') := mp_copy_config h r in
+     r' = length h /\ r' <> r /\ length h' = S (length h) /\ h_get cfg_dflt h' r' = h_get cfg_dflt h r /\
+     (forall q, (q < length h)%nat -> h_get cfg_dflt h' q = h_get cfg_dflt h q)) /\
+  (forall h r, (r < length h)%nat ->
+     let '(h', r') := ttns_copy_config h r in
+     r' = length h /\ r' <> r /\ length h' = S (length h) /\ h_get cfg_dflt h' r' = h_get cfg_dflt h r /\
+     (forall q, (q < length h)%nat -> h_get cfg_dflt h' q = h_get cfg_dflt h q)).
+Proof. exact (conj mp_copy_is_fresh ttns_copy_is_fresh). Qed.
+Print Assumptions C05_copy_config_is_fresh.
+
+(* WHEN max_dims is (re)computed: compress() fills it from bond_dim_max_value iff it is None and the criterion has a
+   limit; a filled max_dims is never refreshed (it is a cache: later changes of bond_dim_max_value are ignored) *)
+Theorem C05_max_dims_cache :
+  (forall h r n md, f_max_dims (h_get cfg_dflt h r) = Some md -> compress_ensure_max_dims h r n = h) /\
+  (forall h r n, f_criteria (h_get cfg_dflt h r) = Threshold -> compress_ensure_max_dims h r n = h) /\
+  (forall h r n, (r < length h)%nat -> f_criteria (h_get cfg_dflt h r) <> Threshold ->
+     f_max_dims (h_get cfg_dflt (compress_ensure_max_dims h r (Z.to_nat n)) r)
+     = Some (effective_max_dims (f_criteria (h_get cfg_dflt h r)) (f_max_dims (h_get cfg_dflt h r))
+                                (f_bond_dim_max_value (h_get cfg_dflt h r)) n)).
+Proof. exact (conj max_dims_is_a_cache (conj max_dims_threshold_untouched ensure_matches_effective)). Qed.
+Print Assumptions C05_max_dims_cache.
+
+(* c = x.copy(); c.compress_config.bond_dim_max_value = M2; c.compress_config.criteria = crit; c.compress()
+   on a copy of a state whose limits were never filled: the limits used are the NEW ones (M2 on every bond),
+   whatever was compressed before in the process, and the source's configuration is unchanged.  Chains and trees. *)
+Theorem C05_fresh_copy_uses_new_limit :
+  forall (tree_state : bool) h r M2 crit n, (r < length h)%nat -> crit <> Threshold ->
+    f_max_dims (h_get cfg_dflt h r) = None ->
+    let '(h1, r') := (if tree_state then ttns_copy_config else mp_copy_config) h r in
+    let h4 := compress_ensure_max_dims (store_criteria cfg_dflt (store_M cfg_dflt h1 r' M2) r' crit) r' n in
+    f_max_dims (h_get cfg_dflt h4 r') = Some (repeat M2 n) /\ f_criteria (h_get cfg_dflt h4 r') = crit /\
+    h_get cfg_dflt h4 r = h_get cfg_dflt h r.
+Proof.
+  exact (fun b => match b with
+                  | true => fresh_copy_uses_new_limit_gen ttns_copy_config ttns_copy_is_fresh
+                  | false => fresh_copy_uses_new_limit_gen mp_copy_config mp_copy_is_fresh
+                  end).
+Qed.
+Print Assumptions C05_fresh_copy_uses_new_limit.
+
+(* `new.__dict__ = self.__dict__` (aliasing) is observable: a store through the copy changes the source *)
+Theorem C05_config_alias_refuted :
+  exists h r, (r < length h)%nat /\
+    let '(h', r') := metacopy_config AttrCopyMethod DictAlias cfg_dflt h r in
+    h_get cfg_dflt (store_M cfg_dflt h' r' 2) r <> h_get cfg_dflt h r.
+Proof. exact alias_refuted. Qed.
+Print Assumptions C05_config_alias_refuted.
+
 (* ------------------------------------------------------------------ documented refutations *)
 (* the rule WITHOUT the max(.,1) of fix c811baf keeps nothing for sigma = [1;1], thr = 9/10 *)
 Theorem C05_threshold_zero_prefix_refuted :
@@ -369,3 +426,14 @@ Proof.
   split; [|split; reflexivity].
   intros j k H1 H2 Q [[a b] c] HQ. destruct j as [|j], k as [|[|k]]; try lia. cbn in HQ. subst Q. reflexivity.
 Qed.
+
+(* a history: base config (Threshold default, no limits), first copy compressed with M = 6, second with M = 2 *)
+Example ex_history :
+  let h0 := [mk_cfields Threshold (1 # 1000)%Q 32 None] in
+  let '(h1, a) := mp_copy_config h0 0 in
+  let h2 := compress_ensure_max_dims (store_criteria cfg_dflt (store_M cfg_dflt h1 a 6) a Fixed) a 4 in
+  let '(h3, b) := mp_copy_config h2 0 in
+  let h4 := compress_ensure_max_dims (store_criteria cfg_dflt (store_M cfg_dflt h3 b 2) b Fixed) b 4 in
+  f_max_dims (h_get cfg_dflt h4 a) = Some [6; 6; 6; 6] /\ f_max_dims (h_get cfg_dflt h4 b) = Some [2; 2; 2; 2] /\
+  h_get cfg_dflt h4 0 = h_get cfg_dflt h0 0.
+Proof. vm_compute. repeat split; reflexivity. Qed.
